@@ -20,8 +20,15 @@ Engine E1 (exhaustive input enumeration), NumPy backend:
   equal_interval additionally on a DENSE (min, max, k) grid: every integer pair lo <= min < max <= hi x every k x
                float64/float32/int32, as the 2-cell raster [min, max] and as a raster holding min, max, their inner
                neighbours, every integer in between, every interval midpoint and every cut with its two neighbours
-               (whether arange overshoots / the last cut falls short of max depends on (min, max, k) only)."""
+               (whether arange overshoots / the last cut falls short of max depends on (min, max, k) only);
+               the same grid once more per MAGNITUDE variant: every value v of the raster replaced by v + 1e6, v - 1e6 and
+               v * 2^-30 (~1e-9), all exactly representable: the range max - min stays that of the small integers while the
+               magnitude of the values (or the absolute size of the range) changes by six to nine orders;
+  natural_breaks additionally with num_sample=None (fit on all cells) on the NaN-free alphabets.  Every classifier is handed
+               a COPY of the generated raster and judged against the generator's own values, never against values read
+               back from the DataArray after the call."""
 import itertools
+from fractions import Fraction
 
 import numpy as np
 
@@ -99,6 +106,11 @@ BIN_VALUES_NF = (0.1, 0.2, 2.3, 1e-3, 16777217)
 # shortest first (length 0: 1, 1: 5, 2: 20, 3: 60, 4: 120, 5: 120 = 326 lists)
 BIN_LISTS = ordered_sublists(range(5), 5)
 EI_GRID = {"quick": dict(lo=-3, hi=18, ks=tuple(range(2, 9))), "thorough": dict(lo=-5, hi=24, ks=tuple(range(2, 13)))}
+# magnitude variants of the (min, max, k) grid: name -> (scale, shift), cell = v * scale + shift, exact in float64 and float32
+# (1e6 + small integers < 2^24; small integers x 2^-30); int32 rasters take the two shifts only
+EI_MAGNITUDE = {"+1e6": (Fraction(1), 10 ** 6), "-1e6": (Fraction(1), -10 ** 6), "x2^-30": (Fraction(1, 2 ** 30), 0)}
+# natural_breaks(num_sample=None): (alphabet name, letters, dtype, max cells quick, max cells thorough) - NaN-free alphabets
+NB_ALL_CELLS = [("wide", WIDE, "f8", 5, 6), ("int", INTS, "i4", 5, 6)]
 
 
 def neighbours(x, dt):
@@ -149,7 +161,13 @@ BOUNDS = {t: {
         "min_max": "every integer pair %d <= min < max <= %d" % (EI_GRID[t]["lo"], EI_GRID[t]["hi"]),
         "k": list(EI_GRID[t]["ks"]), "dtypes": ["float64", "float32", "int32"],
         "rasters": "[min, max] and {min, max, next above min, next below max, every integer between, every interval "
-                   "midpoint, every cut and its two dtype neighbours} (int32: every integer of [min, max])"},
+                   "midpoint, every cut and its two dtype neighbours} (int32: every integer of [min, max])",
+        "magnitude_variants": {"none": "the integers themselves",
+                               "+1e6": "every value v -> v + 1e6 (float64, float32, int32)",
+                               "-1e6": "every value v -> v - 1e6 (float64, float32, int32)",
+                               "x2^-30": "every value v -> v * 2^-30 ~ 9.3e-10 (float64, float32)"}},
+    "natural_breaks_num_sample_None": [dict(alphabet=[str(x) for x in al], dtype=dt, max_cells=(q if t == "quick" else th),
+                                            k=list(KS[t])) for nm, al, dt, q, th in NB_ALL_CELLS],
     "classifiers": {"k": list(KS[t]),
                     "grids": [dict(alphabet=[str(x) for x in al], dtype=dt, max_cells=(q if t == "quick" else th),
                                    layouts="1xN and 2x(N/2)" + (" (N <= %d)" % TWO_ROW_MAX[nm] if nm in TWO_ROW_MAX else ""))
@@ -370,9 +388,16 @@ class BinarySpace(Space):
 # quantile / equal_interval / natural_breaks
 # ---------------------------------------------------------------------------------------------------
 class ClassifierSpace(Space):
-    def __init__(self, fn, alpha_name, letters, dtype, max_cells, ks):
+    kwargs = {}          # extra keyword arguments of the classifier (natural_breaks: num_sample=None)
+    key_extra = ""       # ... and their spelling in the violation key
+
+    def __init__(self, fn, alpha_name, letters, dtype, max_cells, ks, kwargs=None):
         self.fn_name, self.alpha_name, self.letters, self.dtype, self.ks = fn, alpha_name, letters, dtype, ks
         self.name = "%s_%s_%s_n%d" % (fn, alpha_name, dtype, max_cells)
+        if kwargs:
+            self.kwargs = dict(kwargs)
+            self.key_extra = "".join("|%s=%r" % kv for kv in sorted(kwargs.items()))
+            self.name += "".join("_%s_%s" % kv for kv in sorted(kwargs.items()))
         self.shapes = shapes_upto(max_cells, TWO_ROW_MAX.get(alpha_name, 99))
         self.parts = SumSpace([("%dx%d" % s, len(letters) ** (s[0] * s[1]) * len(ks)) for s in self.shapes])
         self.size = self.parts.size
@@ -385,7 +410,8 @@ class ClassifierSpace(Space):
         import xarray as xr
         from xrspatial import classify
         f = getattr(classify, self.fn_name)
-        self.fn = lambda r, k: f(r, k=k)
+        kw = self.kwargs
+        self.fn = lambda r, k: f(r, k=k, **kw)
         # coordinates cost 0.7 ms per DataArray and play no role here: only the smallest rasters carry them
         self.mk = lambda a: dataarray(a) if a.size <= 2 else xr.DataArray(a, dims=("y", "x"))
         # natural_breaks force-enables its "not enough unique values" warning: keep it off the worker's stderr
@@ -398,7 +424,7 @@ class ClassifierSpace(Space):
 
     def describe(self, rank):
         a, k = self.case(rank)
-        return {"function": self.fn_name, "raster": a, "k": k}
+        return dict({"function": self.fn_name, "raster": a, "k": k}, **self.kwargs)
 
     def run(self, lo, hi, out):
         import contextlib
@@ -408,14 +434,18 @@ class ClassifierSpace(Space):
 
     def viol(self, out, rank, kind, text, a, k, cells, observed=None, expected=None, sig=None):
         out.count("viol.%s.%s" % (self.fn_name, kind))
-        key = "%s.%s|%s|%dx%d|%s|k=%d" % (self.fn_name, kind, self.dtype, a.shape[0], a.shape[1], _fmt(cells), k)
-        out.violation(rank, key, "%s(k=%d) on %s %s raster [%s]: %s" % (
-            self.fn_name, k, "x".join(map(str, a.shape)), a.dtype, _fmt(cells), text),
-            case={"function": self.fn_name, "raster": a, "k": k}, observed=observed, expected=expected, sig=sig)
+        key = "%s.%s|%s|%dx%d|%s|k=%d%s" % (self.fn_name, kind, self.dtype, a.shape[0], a.shape[1], _fmt(cells), k,
+                                            self.key_extra)
+        out.violation(rank, key, "%s(k=%d%s) on %s %s raster [%s]: %s" % (
+            self.fn_name, k, self.key_extra.replace("|", ", "), "x".join(map(str, a.shape)), a.dtype, _fmt(cells), text),
+            case=dict({"function": self.fn_name, "raster": a, "k": k}, **self.kwargs), observed=observed,
+            expected=expected, sig=sig)
 
     def one(self, rank, out):
         a, k = self.case(rank)
         fn = self.fn_name
+        # the generator's own values, taken BEFORE the call; the classifier gets a copy of `a` and nothing is ever read
+        # back from the DataArray it was handed (a classifier that reorders its input must not go unnoticed)
         cells = a.ravel().tolist()
         fin = tuple(sorted(float(v) for v in cells if ref.finite(v)))
         ndist = len(set(fin))
@@ -508,34 +538,42 @@ class EqualIntervalGridSpace(ClassifierSpace):
     layout 0: the 1x2 raster [min, max]; layout 1: a 2-row raster holding min, max, the dtype neighbours just inside
     them, every integer in between, the midpoint of every interval and every cut with its two dtype neighbours
     (int32: every integer of [min, max]).  All of ClassifierSpace's assertions apply (every finite cell a class of
-    [0, k-1], order, interval index away from the cuts; on / next to a cut: tie)."""
+    [0, k-1], order, interval index away from the cuts; on / next to a cut: tie).
+    magnitude: None, or a key of EI_MAGNITUDE: every "integer" v of the construction above is v * scale + shift (exact),
+    cuts / midpoints / neighbours are taken on the transformed [min, max]."""
 
-    def __init__(self, tier, dtype):
+    def __init__(self, tier, dtype, magnitude=None):
         g = EI_GRID[tier]
         self.fn_name, self.alpha_name, self.dtype, self.ks = "equal_interval", "minmax", dtype, g["ks"]
-        self.name = "equal_interval_minmax_%s_%d..%d" % (dtype, g["lo"], g["hi"])
+        self.name = "equal_interval_minmax_%s_%d..%d" % (dtype, g["lo"], g["hi"]) + ("_" + magnitude if magnitude else "")
+        self.scale, self.shift = EI_MAGNITUDE[magnitude] if magnitude else (Fraction(1), 0)
         self.pairs = [(a, b) for b in range(g["lo"] + 1, g["hi"] + 1) for a in range(b - 1, g["lo"] - 1, -1)]
         self.size = len(self.pairs) * len(self.ks) * 2
         self.weight = 1.5
         self.rel_eps = 1e-6 if dtype == "f4" else 1e-9
 
     def case(self, rank):
-        from fractions import Fraction
         r, lay = divmod(rank, 2)
         pi, ki = divmod(r, len(self.ks))
         (mn, mx), k, dt = self.pairs[pi], self.ks[ki], self.dtype
+        isint = dt.startswith("i")
+
+        def tr(v):                     # exact: small integer * power of two, or small integer + 1e6
+            t = v * self.scale + self.shift
+            return int(t) if isint else float(t)
         if lay == 0:
-            return np.array([[mn, mx]], dtype=dt), k
-        cells = set(range(mn, mx + 1))
-        if not dt.startswith("i"):
-            cells.update((neighbours(mn, dt)[2], neighbours(mx, dt)[0]))
-            cuts = [Fraction(mn) + Fraction(i * (mx - mn), k) for i in range(k + 1)]
+            return np.array([[tr(mn), tr(mx)]], dtype=dt), k
+        cells = set(tr(v) for v in range(mn, mx + 1))
+        if not isint:
+            lo, hi = Fraction(tr(mn)), Fraction(tr(mx))
+            cells.update((neighbours(tr(mn), dt)[2], neighbours(tr(mx), dt)[0]))
+            cuts = [lo + (hi - lo) * i / k for i in range(k + 1)]
             for c0, c1 in zip(cuts, cuts[1:]):
                 cells.add(neighbours(float((c0 + c1) / 2), dt)[1])
             for c in cuts[1:-1]:
                 cells.update(neighbours(float(c), dt))
         cells = sorted(cells, reverse=True)
-        cells += [mn] * (len(cells) % 2)
+        cells += [tr(mn)] * (len(cells) % 2)
         return np.array(cells, dtype=dt).reshape(2, -1), k
 
 
@@ -544,7 +582,12 @@ def build(tier):
                                                        "edge_cell", "edge_raster")]
     spaces += [BinarySpace(), BinarySpace("nf32")]
     spaces += [EqualIntervalGridSpace(tier, dt) for dt in ("f8", "f4", "i4")]
+    spaces += [EqualIntervalGridSpace(tier, dt, m) for m in EI_MAGNITUDE for dt in ("f8", "f4", "i4")
+               if not (dt == "i4" and EI_MAGNITUDE[m][0] != 1)]
     for fn in ("quantile", "equal_interval", "natural_breaks"):
         for name, letters, dt, q, th in GRIDS:
             spaces.append(ClassifierSpace(fn, name, letters, dt, q if tier == "quick" else th, KS[tier]))
+    for name, letters, dt, q, th in NB_ALL_CELLS:
+        spaces.append(ClassifierSpace("natural_breaks", name, letters, dt, q if tier == "quick" else th, KS[tier],
+                                      kwargs={"num_sample": None}))
     return spaces
